@@ -178,6 +178,16 @@ def replay(chk: Check, cases, tier):
             for name, darr, pos in M.derivations(arr, n, rng):
                 exp_rows = [rows[p] if p >= 0 else nanrow() for p in pos]
                 check_array(chk, kind, name, darr, exp_rows, subtype, aff, desc, full=(aff is geom.IDENT or tier == "thorough"))
+            if n >= 3 and nb % 5 == 0:
+                big, bpos = M.tiled(arr)
+                small_b = np.asarray(arr.bounds, dtype="float64").reshape(-1, 4)
+                chk.count(len(big))
+                if not M.same_array(np.asarray(big.bounds, dtype="float64").reshape(-1, 4), small_b[bpos]):
+                    fail(chk, kind, f"tiled to {len(big)} elements", subtype, aff, desc, "bounds of the large array vs the tiled bounds of the small one", "differs", "equal",
+                         dict(site="bounds", derivation="tiled"))
+                if not M.same_array(np.asarray(big.total_bounds, dtype="float64"), np.asarray(arr.total_bounds, dtype="float64")):
+                    fail(chk, kind, f"tiled to {len(big)} elements", subtype, aff, desc, "total_bounds of the large array", [float(v) for v in big.total_bounds],
+                         [float(v) for v in arr.total_bounds], dict(site="total_bounds", derivation="tiled"))
             if aff is geom.IDENT and subtype == "float64" and nb % 4 == 0:
                 check_dask(chk, kind, arr, rows, subtype, aff, nparts=1 + nb % 3)
                 if nb % 3 == 0 and aff is geom.IDENT:
